@@ -813,3 +813,62 @@ def run(ctx):
     from ..order import SubCtx as _Sub7
     from . import c10 as _c10
     _c10.run(_Sub7(ctx, 'C07.2-node-local-arguments', 'c10', allow=('C10.2-replay', 'C10.2-single-writer')))
+
+
+_run_before_guard_rule = run
+
+
+def run(ctx):
+    _run_before_guard_rule(ctx)
+    # "operations before the handshake completes fail without writing": the socket frames go to is the one the handshake ran on
+    from .c04 import socket_after_guard
+    socket_after_guard(ctx, 'C07.8-socket-after-state-guard')
+
+    send_buffer_own(ctx, 'C07.9-frame-assembled-from-empty')
+
+
+def send_buffer_own(ctx, rule):
+    """a frame is assembled in a buffer that is empty when assembly starts"""
+    from ..core import receiver_root as _rr
+    P = ctx.P
+    ctx.rule(rule, 'an outgoing frame is put together in a buffer of the same call, or - when the buffer is a field that outlives the call - one that is emptied before the first byte of the frame goes in: '
+             'emptying it only after a successful write leaves the half-built frame of a failed call in front of the next one', floor=1)
+    APPEND = ('::put_u8', '::put_u16', '::put_u32', '::put_u64', '::put_slice', '::put', '::extend_from_slice', '::put_i32', '::put_bytes', '::push')
+    EMPTY = ('::clear', '::split', '::split_to', '::truncate', '::take')
+    n = 0
+    for q in sorted(ctx.F.bodies):
+        if not q.startswith('edp_client::connection::') or '::tests::' in q:
+            continue
+        DB = P.B(q)
+        by_field = {}
+        empt = {}
+        for bb, t in DB.calls():
+            if bb not in DB.live_blocks() or not t.get('args') or 'mut' not in ((t.get('aty') or [''])[0]):
+                continue
+            ty0 = (t.get('aty') or [''])[0]
+            if not ('BytesMut' in ty0 or 'Vec<u8>' in ty0):
+                continue
+            names = callee_names(t)
+            base, path_ = _rr(DB, t['args'][0])
+            fld = tuple(str(x).replace('upvar:', '') for x in (path_ or ()))
+            persistent = base is not None and base[0] == 'arg' and len(fld) >= 2 and fld[0] == 'self'
+            if any(n_.endswith(APPEND) for n_ in names):
+                if persistent:
+                    by_field.setdefault(fld, []).append(bb)
+                else:
+                    n += 1
+            if persistent and any(n_.endswith(EMPTY) for n_ in names):
+                empt.setdefault(fld, []).append(bb)
+        name = q.replace('edp_client::connection::', '').split('::{')[0]
+        for fld, sites in sorted(by_field.items()):
+            n += 1
+            bad = [bb for bb in sites if not any(e != bb and DB.block_dominates(e, bb) for e in empt.get(fld, []))]
+            if bad:
+                ctx.bad(rule, '%s:%s' % (name, '.'.join(fld)), '%s appends frame bytes to %s, which outlives the call, without emptying it first on every way there: what an earlier call left behind '
+                        '(an encode error after the length prefix was put, a failed write) goes out in front of this frame' % (name, '.'.join(fld)), ctx.where(DB, bad[0]), key='SHAPE:%s:%s-not-emptied-first' % (q.split('::{')[0], '.'.join(fld)))
+            else:
+                ctx.ok(rule, '%s:%s' % (name, '.'.join(fld)), 'emptied before the first append on every path', ctx.where(DB, sites[0]))
+    if n:
+        ctx.ok(rule, 'call-local', '%d append site(s) on buffers created in the same call' % n)
+    else:
+        ctx.ok(rule, 'none', 'no frame is assembled in a byte buffer here')
